@@ -19,6 +19,7 @@ from operator import xor
 from typing import Any
 
 import numpy as np
+from pb_bss import _verif
 from dataclasses import dataclass
 from pb_bss.utils import unsqueeze
 
@@ -205,6 +206,7 @@ class GCACGMMTrainer:
                     inline_permutation_alignment=inline_permutation_alignment,
                     affiliation_eps=affiliation_eps,
                 )
+                if _verif.enabled: _verif.emit('estep', trainer=self, iteration=iteration, model=model, affiliation=affiliation, quadratic_form=quadratic_form)
 
             model = self._m_step(
                 observation,
@@ -221,6 +223,7 @@ class GCACGMMTrainer:
                 spatial_weight=spatial_weight,
                 spectral_weight=spectral_weight
             )
+            if _verif.enabled: _verif.emit('mstep', trainer=self, iteration=iteration, model=model, affiliation=affiliation, quadratic_form=quadratic_form)
 
         return model
 
